@@ -406,10 +406,14 @@ def run(tier, seed):
     for k, log in errors:
         violations.append(Violation("coq-error", "correspondence shard failed: " + log[-300:], {"log": log, "no_failing_input_found": True}))
     kinds = ["gaussian", "gaussian_full", "laplace", "mixture", "mixture_scalar", "truncated"]
-    for k in range(6 if tier == "quick" else 60):
-        force = {"target": kinds[k % len(kinds)]}                                               # every target kind in every run
-        if k % len(kinds) in (0, 1):
+    for k in range(8 if tier == "quick" else 64):
+        force = {"target": kinds[k % 8] if k % 8 < len(kinds) else "truncated"}                  # every target kind in every run
+        if k % 8 in (0, 1):
             force.update(kind="hmc", mass=["full_int", "full"][k % 2], integrator=rnd.choice(["lf", "3s", "4s"]), stepsize=0.3, steps=4, randomize=False)
+        elif k % 8 == 6:
+            force.update(kind="rwmh", stepmode="vector", stepsize=1.0)          # the box-truncated target under both samplers
+        elif k % 8 == 7:
+            force.update(kind="hmc", mass="diagonal", integrator="lf", stepsize=0.5, steps=5, randomize=False)
         cfg, badm = moment_test(rnd, tier, k, force=force)
         dist["moment_tests"] += 1
         dist["moment_chains"] += 1500 if tier == "quick" else 6000
